@@ -136,22 +136,25 @@ def build_family(c, P):
 
 
 def _earlier_connection(c, L, P):
-    """an EARLIER connection in the same process, on its own WebSocket object and socket (solver-chosen ending): what it
-    left behind must not influence the connection that is checked"""
+    """an EARLIER connection in the same process (solver-chosen ending): what it left behind must not influence the connection that
+    is checked.  A solver variable decides whether it ran on its OWN WebSocket object or on the very object that is then
+    connected again (what persist() does)"""
     opts = P['earlier']
     hx = opts[c.choose(len(opts), 'earlier')]
+    how = ['eof', 'error'][c.choose(2, 'earlier_end')]
     w0 = new_world()
-    w0.default_script = HsThenCuts(w0, hconn.server_stream(list(bytes.fromhex(hx))), 'one', end='eof')
-    ws0 = L.WebSocket('ws://example.com/')
+    w0.default_script = HsThenCuts(w0, hconn.server_stream(list(bytes.fromhex(hx))), 'one', end=how)
+    ws0 = L.WebSocket('ws://example.com/', compress=bool(P.get('negotiate_compression')))
     rec0 = hconn.drive(w0, ws0, dict(poll=1e9, ping_rate=0, ping_timeout=None, close_timeout=None))
     if rec0.budget is not None:
         raise EngineLimit('loop budget in the earlier connection')
-    return ':earlier-' + (hx or 'none')
+    same = c.choose(2, 'earlier_same_object')
+    return ':earlier-%s-%s-%s' % (hx or 'none', how, 'same-object' if same else 'other-object'), (ws0 if same else None)
 
 
 def run_recv(c, P):
     L = lomond()
-    ecls = _earlier_connection(c, L, P) if P.get('earlier') else ''
+    ecls, ws_reused = _earlier_connection(c, L, P) if P.get('earlier') else ('', None)
     w = new_world()
     tcls = None
     if P.get('family'):
@@ -180,7 +183,7 @@ def run_recv(c, P):
     if P.get('fault'):
         F = P['fault']
         w.fault_hook = env.SymFaults(F['ops'], F.get('kinds', ['oserror']), F.get('max', 1), F.get('skip'))
-    ws = L.WebSocket('ws://example.com/', compress=bool(P.get('negotiate_compression')))
+    ws = ws_reused if ws_reused is not None else L.WebSocket('ws://example.com/', compress=bool(P.get('negotiate_compression') or P.get('offer_declined')))
     auto_pong = P.get('auto_pong', True)
     if auto_pong == 'sym':
         auto_pong = bool(c.boolean('auto_pong'))
